@@ -49,7 +49,9 @@ def run(chk, repo):
     chk.attempt(codec_hit, chk, repo)
     chk.attempt(check_codec, chk, repo, "C07", covered_by="codec_hit", rules=tuple(f"C07-K{i}" for i in range(1, 8)))
     chk.attempt(open_protocol, chk, repo)
+    chk.attempt(write_then_read, chk, repo)
     chk.attempt(naming, chk, op)
+    chk.attempt(naming_writer_reader, chk, op, covered_by="write_then_read", rules=("C07-N",))
     chk.attempt(cache_key, chk, op)
     chk.attempt(provenance, chk, op)
     chk.attempt(serialised_last, chk, op, "C07-G6")
@@ -416,6 +418,11 @@ def naming(chk, op):
                     key=f"naming:{k}", sample={"site": k, "suffix": suf})
     # CLI: path = image_path.name and the same name is handed to open_image
     ok_cli = found["cli"][0] is not None and "name" in norm(cflow.expand(ast.Name(id=found["cli"][0], ctx=ast.Load()))) if found["cli"][0] else False
+
+
+def naming_writer_reader(chk, op):
+    """C07-N (form): create_cache and read_cache call local_cache_location with the same arguments"""
+    repo = op.repo
     # writer/reader use the same key: create_cache writes where read_cache looks first
     cc = op.fi(CREATE_CACHE)
     rc = op.fi(READ_CACHE)
@@ -429,9 +436,51 @@ def naming(chk, op):
         return out
 
     a, b = loc_calls(cc), loc_calls(rc)
-    chk.require(bool(a) and a == b[: len(a)] or (bool(a) and set(a) <= set(b)), "C07-N", op.where(cc),
-                f"create_cache and read_cache locate the local cache with the same expression {a}",
-                f"create_cache locates the cache with {a}, read_cache with {b}", key="naming:writer-reader-args")
+    if not (bool(a) and a == b[: len(a)] or (bool(a) and set(a) <= set(b))):
+        # whether the reader finds what the writer stored is decided by evaluation (C07-N3)
+        raise AnalysisError(f"{op.where(cc)}: create_cache locates the cache with {a}, read_cache with {b}: not the same expression; decided by evaluating both (C07-N3)")
+    chk.ok("C07-N", op.where(cc), f"create_cache and read_cache locate the local cache with the same expression {a}")
+
+
+def write_then_read(chk, repo):
+    """C07-N3: what create_cache stores is what read_cache finds, and only for that image of that product: both are evaluated
+    against a model of the user cache directory and of the product mapper (vlib/cachefs.py) with the real location functions"""
+    from ..cachefs import World, call
+    from ..shapes import Const, NonTermination, Obj, ShapeError
+    from collections import OrderedDict
+    chk.rule("C07-N3", "after create_cache(mapper, path, g), read_cache(mapper, path) returns g; another image / another product root does not find it", 8)
+    cach = repo.module("ceos_alos2.sar_image.caching")
+    where = f"{cach.relpath}:create_cache/read_cache"
+    images = ["IMG-HH-ALOS2012345678-140102-WBDR1.1__D-B3", "sub/dir/IMG-HV-ALOS2012345678-140102-UBSR2.1GUD"]
+    others = {"IMG-HH-ALOS2012345678-140102-WBDR1.1__D-B3": "IMG-HH-ALOS2012345678-140102-WBDR1.1__D-B1", "sub/dir/IMG-HV-ALOS2012345678-140102-UBSR2.1GUD": "sub/dir/IMG-HH-ALOS2012345678-140102-UBSR2.1GUD"}
+    for root in ("memory://product", "/data/ALOS2/scene"):
+        for img in images:
+            W = World(repo)
+            try:
+                I, sc = W.interp()
+                m = W.mapper(root)
+                g = Obj("Group", OrderedDict(path=Const("HH"), tag=Const(f"{root}:{img}")))
+                sit = f"product {root!r}, image {img!r}"
+                k0, v0 = call(I, sc, "read_cache", [m, Const(img), Const(7)])
+                chk.require(k0 == "CachingError", "C07-N3", where, f"{sit}: with no cache anywhere read_cache raises CachingError",
+                            f"{sit}: with no cache anywhere read_cache {k0} {str(v0)[:60]}", key="write-read:empty")
+                kw, vw = call(I, sc, "create_cache", [m, Const(img), g])
+                if kw != "returned":
+                    chk.fail("C07-N3", where, f"{sit}: create_cache on an empty cache directory {kw}: {str(vw)[:80]}", key="write-read:write")
+                    continue
+                kr, vr = call(I, sc, "read_cache", [m, Const(img), Const(7)])
+                chk.require(kr == "returned" and vr is g, "C07-N3", where, f"{sit}: read_cache finds what create_cache stored",
+                            f"{sit}: after create_cache, read_cache {'returns something else than the stored group' if kr == 'returned' else kr + ' ' + str(vr)[:60]} (written: {sorted('/'.join(p) for p in W.local)}): the writer and the reader do not agree on the location, the cache is never hit",
+                            key="write-read:same-image")
+                ko, vo = call(I, sc, "read_cache", [m, Const(others[img]), Const(7)])
+                chk.require(ko == "CachingError", "C07-N3", where, f"{sit}: another image of the product does not find it",
+                            f"{sit}: read_cache for the other image {others[img]!r} {'returns the group stored for ' + img if ko == 'returned' else ko}: images share a cache entry", key="write-read:other-image")
+                m2 = W.mapper(root + "-2")
+                kp, vp = call(I, sc, "read_cache", [m2, Const(img), Const(7)])
+                chk.require(kp == "CachingError", "C07-N3", where, f"{sit}: the same image name under another product root does not find it",
+                            f"{sit}: read_cache under product root {root + '-2'!r} {'returns the group stored for ' + root if kp == 'returned' else kp}: products share a cache entry", key="write-read:other-root")
+            except (ShapeError, NonTermination, RecursionError) as e:
+                raise AnalysisError(f"{where}: cannot be evaluated on the model cache places ({root!r}, {img!r}): {str(e)[:160]}")
 
 
 def cache_key(chk, op):
